@@ -132,6 +132,17 @@ def binop(ip, op, a, b):
 def compare(ip, op, a, b):
     ctx = ip.ctx
     if op in ('Is', 'IsNot'):
+        def plain_int(v):
+            return isinstance(v, SInt) or (isinstance(v, int) and not isinstance(v, bool))
+        if plain_int(a) and plain_int(b):
+            # identity of int objects is implementation-defined: CPython shares the objects of -5..256 only; any other pair of
+            # equal ints may or may not be the same object (over-approximated by an unconstrained boolean)
+            ta, tb = ops.int_term(a), ops.int_term(b)
+            same = ctx.fresh_bool('int_identity')
+            r = wrap_bool(z3.And(ta == tb, z3.Or(z3.And(ta >= -5, ta <= 256), same)))
+            if op == 'Is':
+                return r
+            return (not r) if isinstance(r, bool) else wrap_bool(z3.Not(r.t))
         if isinstance(a, (SInt, SBool, SBytes, SStr, SFloat)) or isinstance(b, (SInt, SBool, SBytes, SStr, SFloat)):
             if a is None or b is None:
                 r = False
